@@ -18,10 +18,10 @@ MANIFEST = {
 
 INVARIANTS = ["C41_Uncommitted", "C41_NotDispatched", "C01_User", "C06_Batch", "C06_Counts"]
 PROPERTIES = []
-QUICK = ['grp2', 'upd2']
-THOROUGH = ['grp2', 'upd2', 'clean']
+QUICK = ['grp2', 'upd2', 'upd3']
+THOROUGH = ['grp2', 'upd2', 'clean', 'upd3']
 FINDINGS = [("uncchild", "upd2", ["C41_Uncommitted"]), ("ooc", "ooc2", ["C41_NotDispatched"])]
 
 
 def run(ctx):
-    B.run_property(ctx, "C41", INVARIANTS, PROPERTIES, QUICK, THOROUGH, FINDINGS)
+    B.run_property(ctx, "C41", INVARIANTS, PROPERTIES, QUICK, THOROUGH, FINDINGS, overlap=['upd2'])
